@@ -159,6 +159,18 @@ Section Sound.
       + symmetry. apply (peval_pvar R rO rI radd rmul rsub ropp req phi Rsth Reqe Rth Rphi).
   Qed.
 
+  (* ---- Piola identity of a polynomial cell map, at every point ---- *)
+  Definition piola_identity_spec (d : nat) (F : list poly) : Prop :=
+    length F = d /\ forall i, (i < d)%nat -> forall pt, rsum (fun k => pev (pderiv k (adjp d F k i)) pt) (seq 0 d) == rO.
+
+  Theorem piola_identity_sound d F : piola_identity_ok d F = true -> piola_identity_spec d F.
+  Proof.
+    unfold piola_identity_ok. intros H. apply andb_true_iff in H. destruct H as [H Hf].
+    apply andb_true_iff in H. destruct H as [Hl _]. apply Nat.eqb_eq in Hl. split; [exact Hl|].
+    intros i Hi pt. pose proof (forallb_seq _ _ Hf i Hi) as E. cbv beta in E.
+    rewrite <- pev_psum_map. exact (pis_zero_sound R rO rI radd rmul rsub ropp req phi Rsth Reqe Rth Rphi _ E pt).
+  Qed.
+
   (* ---- traces of vector fields ---- *)
   Definition rdot (v : list poly) (c : list Q) (pt : nat -> R) : R :=
     fold_right (fun vc acc => phi (snd vc) * pev (fst vc) pt + acc) rO (combine v c).
